@@ -614,10 +614,18 @@ impl<P: Depth> Depth for DS<P> {
 struct FailWriter {
     buf: Vec<u8>,
     limit: Option<usize>,
+    /// report "full" the way `&mut [u8]` and `Cursor<&mut [u8]>` do: accept what fits (a short
+    /// write), then `Ok(0)`; `write_all` turns that into an `ErrorKind::WriteZero` error
+    short: bool,
 }
 impl io::Write for FailWriter {
     fn write(&mut self, data: &[u8]) -> io::Result<usize> {
         if let Some(l) = self.limit {
+            if self.short {
+                let room = l.saturating_sub(self.buf.len()).min(data.len());
+                self.buf.extend_from_slice(&data[..room]);
+                return Ok(room);
+            }
             if self.buf.len() + data.len() > l {
                 return Err(io::Error::new(io::ErrorKind::Other, Tok(l as u32)));
             }
@@ -711,6 +719,8 @@ struct SinkSpec {
     cap: u8,
     /// initial content of the target store
     init: Vec<MQ>,
+    /// serializers: the writer fills up through short writes instead of returning an error
+    short: bool,
 }
 
 #[derive(Debug, Default)]
@@ -949,7 +959,7 @@ fn consume_t<S: TripleSource>(mut s: S, sp: &SinkSpec) -> Outcome {
             Outcome { res: Some(res_of(r.map(Some))), store: Some(v.iter().map(mq_t).collect()), ..Outcome::default() }
         }
         12 => {
-            let mut w = FailWriter { buf: vec![], limit: sp.fail_at.map(|x| x as usize) };
+            let mut w = FailWriter { buf: vec![], limit: sp.fail_at.map(|x| x as usize), short: sp.short };
             let r = {
                 let mut ser = NtSerializer::new(&mut w);
                 ser.serialize_triples(s).map(|_| None)
@@ -957,7 +967,7 @@ fn consume_t<S: TripleSource>(mut s: S, sp: &SinkSpec) -> Outcome {
             Outcome { res: Some(res_of(r)), written: Some(w.buf), ..Outcome::default() }
         }
         _ => {
-            let mut w = FailWriter { buf: vec![], limit: sp.fail_at.map(|x| x as usize) };
+            let mut w = FailWriter { buf: vec![], limit: sp.fail_at.map(|x| x as usize), short: sp.short };
             let r = {
                 let mut ser = TurtleSerializer::new(&mut w);
                 ser.serialize_triples(s).map(|_| None)
@@ -1070,7 +1080,7 @@ fn consume_q<S: QuadSource>(mut s: S, sp: &SinkSpec) -> Outcome {
             Outcome { res: Some(res_of(r.map(Some))), store: Some(v.iter().map(mq_q).collect()), ..Outcome::default() }
         }
         12 => {
-            let mut w = FailWriter { buf: vec![], limit: sp.fail_at.map(|x| x as usize) };
+            let mut w = FailWriter { buf: vec![], limit: sp.fail_at.map(|x| x as usize), short: sp.short };
             let r = {
                 let mut ser = NqSerializer::new(&mut w);
                 ser.serialize_quads(s).map(|_| None)
@@ -1078,7 +1088,7 @@ fn consume_q<S: QuadSource>(mut s: S, sp: &SinkSpec) -> Outcome {
             Outcome { res: Some(res_of(r)), written: Some(w.buf), ..Outcome::default() }
         }
         _ => {
-            let mut w = FailWriter { buf: vec![], limit: sp.fail_at.map(|x| x as usize) };
+            let mut w = FailWriter { buf: vec![], limit: sp.fail_at.map(|x| x as usize), short: sp.short };
             let r = {
                 let mut ser = TrigSerializer::new(&mut w);
                 ser.serialize_quads(s).map(|_| None)
@@ -1295,7 +1305,8 @@ impl Check for C15 {
             if sink_can_fail(sink) {
                 for k in 0..n as u8 {
                     if sink == 12 {
-                        for aux in 0..3u8 {
+                        // aux % 3: where in the statement the writer fills up; aux / 3: error or short writes
+                        for aux in 0..6u8 {
                             f.push((Fault::Sink(k), aux));
                         }
                     } else {
@@ -1436,7 +1447,7 @@ impl Check for C15 {
             None
         };
         let plan = Plan { kind, chain: &chain, ii, direct, src: src.clone(), src_fault, fault_line, raw };
-        let mut sp = SinkSpec { sink, fail_at: None, cap, init: init.clone() };
+        let mut sp = SinkSpec { sink, fail_at: None, cap, init: init.clone(), short: matches!(sink, 12 | 13) && (case.aux / 3) % 2 == 1 };
 
         // serializers: fault-free output first, then the byte limit inside statement k
         let mut free_output: Option<Vec<u8>> = None;
@@ -1662,8 +1673,14 @@ fn judge(ctx: &mut Ctx, case: &Case, plan: &Plan, sp: &SinkSpec, image: &[(usize
                     fired = true;
                     let limit = limit as usize;
                     match &res {
-                        Res::Sink(e) if e.tok == Some(limit as u32) => {}
+                        Res::Sink(e) if !sp.short && e.tok == Some(limit as u32) => {}
+                        // a writer that fills up through short writes: std's write_all reports WriteZero
+                        Res::Sink(e) if sp.short && e.tok.is_none() => {}
+                        _ if sp.short => ctx.fail(sig("sink-error-not-reported", plan, sp), ctxt(format!("the writer accepted {limit} bytes and then reported 'full' through short writes (Ok(n < len), then Ok(0)); expected SinkError (WriteZero)"))),
                         _ => ctx.fail(sig("sink-error-not-reported", plan, sp), ctxt(format!("the writer failed with Tok({limit}) once more than {limit} bytes were offered; expected SinkError carrying that io::Error"))),
+                    }
+                    if sp.short && written.len() != limit.min(w0.len()) {
+                        ctx.fail(sig("output-not-a-prefix", plan, sp), ctxt(format!("a writer with room for {limit} bytes holds {} bytes after the failure", written.len())));
                     }
                     if written.len() > limit || !w0.starts_with(&written) {
                         ctx.fail(sig("output-not-a-prefix", plan, sp), ctxt(format!("bytes accepted before the failure are not a prefix of the fault-free output\n fault-free: {:?}\n got: {:?}", String::from_utf8_lossy(w0), String::from_utf8_lossy(&written))));
